@@ -307,16 +307,31 @@ def run_property(pid, tier, seed, replay=None):
                     print(f"KNOWN-FINDING: property={pid} {kf['text']}")
             if not unknown:
                 continue
-            unknown.sort(key=lambda v: (0 if v.get("predicate_failed") else 1, len(v["case"])))
+            # families that compare the complete structural state (slice pointers, chunk numbers, caches): a case on which
+            # only that structure differs -- same return values, sizes and bytes, no property clause failing on the
+            # implementation's trace -- shows that the model no longer describes the code, not that the property fails
+            def semantic_failure(v):
+                if v.get("predicate_failed") or not hasattr(fam, "semantic"):
+                    return True
+                try:
+                    return fam.semantic(v["case"], v["impl"], False) != fam.semantic(v["case"], v["model"], True)
+                except Exception:
+                    return True
+            unknown.sort(key=lambda v: (0 if v.get("predicate_failed") else 1, 0 if semantic_failure(v) else 1, len(v["case"])))
             best = shrink(pid, fam, unknown[0], workdir) if model_ok and name not in crashed else unknown[0]
+            if semantic_failure(unknown[0]) and not semantic_failure(best):
+                best = unknown[0]          # shrinking must not turn a failing input into a merely structural difference
+            structural_only = not semantic_failure(best)
             # a family whose cross_checks state the whole property on traces: a bare model/implementation
             # difference shows the tie is broken, not that the property fails on this input
-            suffix = " no-failing-input-found" if getattr(fam, "PREDICATE_COMPLETE", False) and not best.get("predicate_failed") else ""
+            suffix = " no-failing-input-found" if (getattr(fam, "PREDICATE_COMPLETE", False) and not best.get("predicate_failed")) or structural_only else ""
             rp = os.path.join(replay_dir, f"{pid}.{name}.json")
             json.dump({"property": pid, "tier": tier, "seed": seed, "family": name, "case": best["case"],
                        "profile": best["profile"], "fields": fam.FIELDS, "binding_fields": best["binding_fields"],
                        "impl": trunc(best["impl"], 400), "model": trunc(best["model"], 400), "predicate_failed": best.get("predicate_failed"),
                        "explain": fam.explain(best) if hasattr(fam, "explain") else None,
+                       "correspondence": f"family {name}: harness/src vs coq/theories/run/{getattr(fam, 'RUNFILE', '?')}.v",
+                       "structural_difference_only": structural_only,
                        "failing_cases_in_run": len(unknown), "proof": proof}, open(rp, "w"), indent=1)
             print(f"VIOLATION property={pid} replay={rp}{suffix}")
             reported += 1
